@@ -17,10 +17,12 @@ SRC = os.path.join(BUILD, "mir_src")
 TARGET = os.path.join(BUILD, "mir_target")
 
 
-def dump():
-    """Returns (mir_text, {relative source path: text})."""
+def dump(features=()):
+    """Returns (mir_text, {relative source path: text}).  features: cargo features of /repo to enable (e.g. ("borsh",))."""
     t0 = time.time()
     os.makedirs(BUILD, exist_ok=True)
+    SRC = os.path.join(BUILD, "mir_src" + "".join("_" + f for f in features))
+    TARGET = os.path.join(BUILD, "mir_target" + "".join("_" + f for f in features))
     shutil.rmtree(SRC, ignore_errors=True)
     os.makedirs(SRC)
     for name in ("Cargo.toml", "Cargo.lock"):
@@ -35,8 +37,10 @@ def dump():
     env["CARGO_NET_OFFLINE"] = "true"
     env["CARGO_TARGET_DIR"] = TARGET
     env.pop("RUSTFLAGS", None)
-    cmd = ["cargo", "+nightly", "rustc", "--offline", "--lib", "--", "-Zunpretty=mir",
-           "-C", "overflow-checks=on"]
+    cmd = ["cargo", "+nightly", "rustc", "--offline", "--lib"]
+    if features:
+        cmd += ["--features", ",".join(features)]
+    cmd += ["--", "-Zunpretty=mir", "-C", "overflow-checks=on"]
     r = subprocess.run(cmd, cwd=SRC, env=env, stdout=subprocess.PIPE, stderr=subprocess.PIPE, text=True)
     if r.returncode != 0 or "fn " not in r.stdout:
         raise RuntimeError("MIR dump failed: " + r.stderr[-3000:])
@@ -48,7 +52,7 @@ def dump():
                 with open(p) as fh:
                     sources[os.path.relpath(p, SRC)] = fh.read()
     shutil.rmtree(SRC, ignore_errors=True)
-    log("[e2] MIR dump: %d lines in %.1fs" % (r.stdout.count("\n"), time.time() - t0))
+    log("[e2] MIR dump%s: %d lines in %.1fs" % (" (features %s)" % ",".join(features) if features else "", r.stdout.count("\n"), time.time() - t0))
     return r.stdout, sources
 
 
